@@ -211,6 +211,20 @@ def decoder(chk, prog):
 
 
 
+def cut_codes(chk, ev):
+    """The two coded fields of a cut that the chunk-timing estimate keys on (carried by C19): channel configuration and waveform type."""
+    def coded(path, field, ty, rows, default, what):
+        got, f2 = eval_or_blind(chk, ev, "VN", path)
+        if got is not None:
+            expect(chk, "R-TABLE", path, got, table(F(field), ty, rows, default), f2.where(), what)
+    CC = DEFS + "ChannelConfiguration"
+    coded(E + "::channel_configuration", "channel_configuration", "u8",
+          [(0, unit_variant(CC, "ConstantPhase")), (1, unit_variant(CC, "RandomPhase")), (2, unit_variant(CC, "SZ2Phase"))], unit_variant(CC, "UnknownPhase"), "channel configuration codes")
+    WT = DEFS + "WaveformType"
+    coded(E + "::waveform_type", "waveform_type", "u8", [(i + 1, unit_variant(WT, n2)) for i, n2 in enumerate(["CS", "CDW", "CDWO", "B", "SPP"])],
+          unit_variant(WT, "Unknown"), "waveform type codes")
+
+
 def run(chk, tier):
     prog, info = common.program("all")
     common.note_extraction(chk, info, prog)
@@ -291,9 +305,4 @@ def run(chk, tier):
             return x
         expect(chk, "R-SIB", H + "::doppler_velocity_resolution", sym.map_leaves(got, leaf),
                table(F("doppler_velocity_resolution"), "u8", [(2, some(C(0.5, "f64"))), (4, some(C(1.0, "f64")))], NONE), f2.where(), "unit-typed velocity resolution codes (m/s)")
-    CC = DEFS + "ChannelConfiguration"
-    coded(E + "::channel_configuration", "channel_configuration", "u8",
-          [(0, unit_variant(CC, "ConstantPhase")), (1, unit_variant(CC, "RandomPhase")), (2, unit_variant(CC, "SZ2Phase"))], unit_variant(CC, "UnknownPhase"), "channel configuration codes")
-    WT = DEFS + "WaveformType"
-    coded(E + "::waveform_type", "waveform_type", "u8", [(i + 1, unit_variant(WT, n2)) for i, n2 in enumerate(["CS", "CDW", "CDWO", "B", "SPP"])],
-          unit_variant(WT, "Unknown"), "waveform type codes")
+    cut_codes(chk, ev)
